@@ -25,7 +25,7 @@ Record case := mk_case {
   c_b_netcap : N;
   c_perm : list N;                (* indices into A's emitted flits: the order fed to B *)
   c_feed : list N;                (* flits offered to B before every tick (cycled) *)
-  c_pull : list N;                (* messages every B device takes after every tick (cycled) *)
+  c_pull : list (list N);         (* per B device port: messages the device takes from it after every tick (cycled); ports stall and drain independently *)
   o_a : option (list (list flit));            (* flits taken from A after each tick; None = A panicked *)
   o_b : option (list (N * list (N * meta)));  (* per B tick: flits actually fed before it, (port, meta) taken after it *)
 }.
@@ -95,7 +95,7 @@ Definition push_all (devq : list (list meta)) (dl : list (nat * meta)) : list (l
   fold_left (fun q im => map (fun iq => if (fst iq =? fst im) then snd iq ++ [snd im] else snd iq)
                              (combine (seq 0 (length q)) q)) dl devq.
 
-Fixpoint run_b (fuel : nat) (sp : spec) (ports : list (N * N)) (netcap : nat) (feed pull : list N) (t : nat)
+Fixpoint run_b (fuel : nat) (sp : spec) (ports : list (N * N)) (netcap : nat) (feed : list N) (pull : list (list N)) (t : nat)
   (st : in_state) (devq : list (list meta)) (netq pending : list flit)
   : option (list (N * list (N * meta))) :=
   match fuel with
@@ -110,10 +110,12 @@ Fixpoint run_b (fuel : nat) (sp : spec) (ports : list (N * N)) (netcap : nat) (f
         | None => None
         | Some (st', _, netq2, dl) =>
             let devq1 := push_all devq dl in
-            let take := nth_cyc pull t in
-            let taken := concat (map (fun iq => map (fun m => (N.of_nat (fst iq), m)) (firstn take (snd iq)))
+            let take := fun i => nth_cyc (nth i pull []) t in
+            let taken := concat (map (fun iq => map (fun m => (N.of_nat (fst iq), m)) (firstn (take (fst iq)) (snd iq)))
                                      (combine (seq 0 (length devq1)) devq1)) in
-            match run_b f sp ports netcap feed pull (S t) st' (map (skipn take) devq1) netq2 (skipn k pending) with
+            match run_b f sp ports netcap feed pull (S t) st'
+                        (map (fun iq => skipn (take (fst iq)) (snd iq)) (combine (seq 0 (length devq1)) devq1))
+                        netq2 (skipn k pending) with
             | Some r => Some ((N.of_nat k, taken) :: r)
             | None => None
             end
